@@ -28,18 +28,19 @@ def compose(rng, i, with_gene):
     return h, fields
 
 
-def gen_fasta(rng, n, gene_share):
+def gen_fasta(rng, n, gene_share, with_gene=None, max_len=40):
+    """[with_gene]: the exact set of record numbers that carry a gene name (instead of the random share)"""
     lines, fields = [], []
     for i in range(n):
-        h, f = compose(rng, i, rng.random() < gene_share)
-        seq = "".join(rng.choice("ACDEFGHIKLMNPQRSTVWY") for _ in range(rng.randint(1, 40)))
+        h, f = compose(rng, i, (rng.random() < gene_share) if with_gene is None else (i in with_gene))
+        seq = "".join(rng.choice("ACDEFGHIKLMNPQRSTVWY") for _ in range(rng.randint(1, max_len)))
         f["len"] = len(seq)
         fields.append(f)
         lines.append(">" + h + "\n")
         w = rng.choice([7, 60])
         for j in range(0, len(seq), w):
             lines.append(seq[j:j + w] + "\n")
-    if rng.random() < 0.3 and n > 0:          # repeated identifier within the file: the first record must win
+    if with_gene is None and rng.random() < 0.3 and n > 0:          # repeated identifier within the file: the first record must win
         h, f = compose(rng, 0, True)
         lines.append(">" + fields[0]["id"] + " Another description OS=Mus musculus OX=1 GN=OTHER PE=2 SV=1\nAAAA\n")
     return "".join(lines), fields
@@ -64,7 +65,8 @@ class AnnotationSuite(Suite):
     deterministic = True
     rule = ("1-2 FASTA files with 1-6 UniProt-grammar headers (isoform accessions, descriptions containing spaces, brackets and "
             "the words OS/GN/PE, optional GN field with share 0/0.5/1), a repeated identifier, target-only and target+decoy, "
-            "identifier rule full / accession / gene-level; non-trivial = gene-level requested or a repeated identifier")
+            "identifier rule full / accession / gene-level; files of 7-250 (thorough: 3-400) records in which exactly half, one more and one "
+            "less than half carry a gene name; non-trivial = gene-level requested or a repeated identifier")
 
     def gen(self, rng, tier):
         for _ in range(core.tier_n(tier, 500, 8000)):
@@ -75,6 +77,13 @@ class AnnotationSuite(Suite):
                 files.append(t)
             yield {"texts": files, "contains_decoys": rng.random() < 0.5, "gene_level": rng.random() < 0.5,
                    "use_uniprot": rng.random() < 0.3}
+        # the "more than half of the records" decision at its boundary, for record counts where percentages round: exactly half,
+        # one more than half, one less than half of n records carry a gene name (gene level requested)
+        sizes = [7, 101, 200, 250] if tier != "thorough" else [3, 7, 99, 100, 101, 199, 200, 201, 250, 333, 400]
+        for n in sizes:
+            for k in sorted({n // 2, n // 2 + 1, (n - 1) // 2}):
+                t, _ = gen_fasta(rng, n, 0.0, with_gene=set(rng.sample(range(n), k)), max_len=6)
+                yield {"texts": [t], "contains_decoys": True, "gene_level": True, "use_uniprot": rng.random() < 0.3}
 
     def impl(self, case):
         from picked_group_fdr import protein_annotation as pa
